@@ -192,7 +192,9 @@ Definition do_def (cfg : deviations) (legacy started : bool) (c : cid) (f : fid)
   let old := find_bound s0 c f in
   let invalid := negb legacy && d_no_alias cfg && (1 <? N.of_nat (length decl))%N in   (* vol.Length(max=1): manager INVALID *)
   let pend := negb legacy && negb invalid && negb started in
-  let nr := mk_frec c f g m decl [] true (negb invalid) pend in
+  (* D26 on: every occurrence of a repeated name is registered; conformant: a name is registered once *)
+  let decl' := if d_dup_set cfg then decl else nodupN decl in
+  let nr := mk_frec c f g m decl' [] true (negb invalid) pend in
   let s1 := set_funcs s0 (s_funcs s0 ++ [nr]) in
   let s2 := if legacy then commit (d_alias_abort cfg) s1 nr
             else if invalid || pend then s1 else commit false s1 nr in
